@@ -502,6 +502,41 @@ func schedListVsSync(res *core.Result, r *core.RNG) error {
 			}
 		}
 	}
+	// the same two records about one server in both arrival orders: ban then authorization, authorization then
+	// ban -- either way the server ends up banned (the outcome does not depend on the order)
+	if !stuck {
+		for _, banFirst := range []bool{true, false} {
+			k := srv.DetKey(r).Pub
+			mk := func(b bool) []byte {
+				as := server.AuthorizedServer{PublicKey: k, Banned: b, Location: "127.0.0.1", HttpPort: 9, TcpPort: 7, UdpPort: 8}
+				as.GCAAuthorization = glow.Sign(as.SigningBytes(), s.a.GCA.Priv)
+				j, _ := json.Marshal(as)
+				return j
+			}
+			order := [][]byte{mk(false), mk(true)}
+			if banFirst {
+				order = [][]byte{mk(true), mk(false)}
+			}
+			for _, j := range order {
+				w.Raw("POST", "/api/v1/authorized-servers", j)
+			}
+			if rr := w.Raw("GET", "/api/v1/authorized-servers", nil); rr.Status == 200 {
+				var resp struct{ AuthorizedServers []server.AuthorizedServer }
+				if json.Unmarshal(rr.Body, &resp) == nil {
+					banned := false
+					for _, e := range resp.AuthorizedServers {
+						if e.PublicKey == k && e.Banned {
+							banned = true
+						}
+					}
+					if !banned {
+						s.fail(fmt.Sprintf("a ban and an authorization of one server were both delivered (ban first: %v) and the server is not listed as banned: the outcome depends on the arrival order", banFirst), "server-list-order-dependent")
+					}
+				}
+			}
+		}
+		res.Count("sched.list-order")
+	}
 	// several announcements of ONE new key in flight together (different ports, all validly signed):
 	// the key gets exactly one entry
 	for round := 0; round < 6 && !stuck; round++ {
